@@ -304,6 +304,14 @@ func ruleLeafTypes(w *World, r *Report) {
 				}
 			}
 		}
+		// the case returns by itself (`return X, true` in the case, or the join folded back by splitret.go)
+		for _, ret := range allReturns(fn) {
+			for _, f := range factsAt(ret.Block()) {
+				if f.Cond == c.okv && f.Truth {
+					return ret.Results[0], ret.Block()
+				}
+			}
+		}
 		return nil, nil
 	}
 	// string
@@ -333,6 +341,10 @@ func ruleLeafTypes(w *World, r *Report) {
 		res, pred := resultOf(c)
 		if res == nil {
 			r.Fail(rule, w.InstrPos(c.ta), name, "case "+lt, "result not found")
+			continue
+		}
+		// the joined form: "(" + strings.Join(elems, " ") + ")" with elems collected over the whole list
+		if done := leafListJoined(w, r, rule, name, lt, c.ta, c.val, res); done {
 			continue
 		}
 		// the builder: res = sb.String()
@@ -423,6 +435,95 @@ func ruleLeafTypes(w *World, r *Report) {
 		}
 	}
 	r.Check(varOK, rule, w.Pos(fn.Pos()), name, "variable leaf", "printed by its name", "a variable is not printed by its name")
+}
+
+// leafListJoined recognises  open + strings.Join(elems, sep) + close  where elems receives one appended element
+// per iteration of a full range over the list; it reports false when res has another form.
+func leafListJoined(w *World, r *Report, rule, name, lt string, ta *ssa.TypeAssert, list ssa.Value, res ssa.Value) bool {
+	outer, ok := res.(*ssa.BinOp)
+	if !ok || outer.Op != token.ADD {
+		return false
+	}
+	inner, ok := outer.X.(*ssa.BinOp)
+	if !ok || inner.Op != token.ADD {
+		return false
+	}
+	join, ok := inner.Y.(*ssa.Call)
+	if !ok || calleeFullName(&join.Call) != "strings.Join" {
+		return false
+	}
+	open, _ := constString(inner.X)
+	close, _ := constString(outer.Y)
+	sep, _ := constString(join.Call.Args[1])
+	// elems: the loop-carried slice at the exit of the full range over the list
+	elemOK, elemDesc := false, "?"
+	if acc, isPhi := join.Call.Args[0].(*ssa.Phi); isPhi {
+		hdr := acc.Block()
+		full := false
+		if iff, okIf := hdr.Instrs[len(hdr.Instrs)-1].(*ssa.If); okIf {
+			if cmp, okc := iff.Cond.(*ssa.BinOp); okc && cmp.Op == token.LSS {
+				if x, okl := lenArg(cmp.Y); okl && x == list {
+					if h, okh := rangeIndexHeader(cmp.X, list); okh && h == hdr {
+						full = edgeDominates(hdr, 1, join.Block())
+					}
+				}
+			}
+		}
+		startsEmpty, everyIter := true, true
+		var elem ssa.Value
+		for i, e := range acc.Edges {
+			pred := hdr.Preds[i]
+			if !hdr.Dominates(pred) {
+				switch x := e.(type) {
+				case *ssa.MakeSlice:
+					if n, okn := constInt(x.Len); !okn || n != 0 {
+						startsEmpty = false
+					}
+				default:
+					if !isNilConst(e) {
+						startsEmpty = false
+					}
+				}
+				continue
+			}
+			app, okA := e.(*ssa.Call)
+			if !okA || calleeFullName(&app.Call) != "builtin.append" || app.Call.Args[0] != ssa.Value(acc) {
+				everyIter = false
+				continue
+			}
+			if vs := variadicElems(app.Call.Args[1]); len(vs) == 1 {
+				elem = vs[0]
+			} else {
+				everyIter = false
+			}
+		}
+		if full && startsEmpty && everyIter && elem != nil {
+			if lt == "[]string" {
+				tc := &termCtx{leaf: func(v ssa.Value) string {
+					if _, _, ok := rangeElemOfAny(v, list); ok {
+						return "E"
+					}
+					return ""
+				}}
+				elemDesc = tc.term(elem)
+				elemOK = elemDesc == `(("\"" ++ E) ++ "\"")`
+			} else if fc, ok := elem.(*ssa.Call); ok && calleeFullName(&fc.Call) == "strconv.FormatInt" {
+				base, _ := constInt(fc.Call.Args[1])
+				_, _, isElem := rangeElemOfAny(fc.Call.Args[0], list)
+				elemDesc = fmt.Sprintf("FormatInt(E, %d)", base)
+				elemOK = base == 10 && isElem
+			} else {
+				elemDesc = describe(elem)
+			}
+		} else {
+			elemDesc = fmt.Sprintf("collection not recognised (whole list: %v, starts empty: %v, one append per iteration: %v)", full, startsEmpty, everyIter)
+		}
+	}
+	sepOK := len(sep) == 1 && unicode.IsSpace(rune(sep[0]))
+	r.Check(open == "(" && close == ")" && sepOK && elemOK, rule, w.InstrPos(ta), name,
+		fmt.Sprintf("%s printed as %q + strings.Join(elements %s, %q) + %q", lt, open, elemDesc, sep, close),
+		"a parenthesised, space-separated list of re-readable elements", "the list is not printed in the form the prefix list parser accepts (delimiters, separator or element form)")
+	return true
 }
 
 func runes(xs []int64) string {
@@ -572,6 +673,12 @@ func ruleIfLayout(w *World, r *Report) {
 }
 
 var c13Witnesses = append(append(evRemapWitnesses, wave3WitnessesC13...), []Witness{
+	{Name: "benign-list-printed-with-strings-join", Rule: "R-LEAFTYPES", Benign: true, Edits: []Edit{
+		{File: "util.go", Old: "\t\tvar sb strings.Builder\n\t\tsb.WriteRune('(')\n\t\tfor idx, s := range v {\n\t\t\tif idx != 0 {\n\t\t\t\tsb.WriteRune(' ')\n\t\t\t}\n\t\t\tsb.WriteString(`\"` + s + `\"`)\n\t\t}\n\t\tsb.WriteRune(')')\n\t\tres = sb.String()\n", New: "\t\telems := make([]string, 0, len(v))\n\t\tfor _, s := range v {\n\t\t\telems = append(elems, `\"`+s+`\"`)\n\t\t}\n\t\tres = \"(\" + strings.Join(elems, \" \") + \")\"\n"}}},
+	{Name: "list-joined-with-comma", Rule: "R-LEAFTYPES", Edits: []Edit{
+		{File: "util.go", Old: "\t\tvar sb strings.Builder\n\t\tsb.WriteRune('(')\n\t\tfor idx, s := range v {\n\t\t\tif idx != 0 {\n\t\t\t\tsb.WriteRune(' ')\n\t\t\t}\n\t\t\tsb.WriteString(`\"` + s + `\"`)\n\t\t}\n\t\tsb.WriteRune(')')\n\t\tres = sb.String()\n", New: "\t\telems := make([]string, 0, len(v))\n\t\tfor _, s := range v {\n\t\t\telems = append(elems, `\"`+s+`\"`)\n\t\t}\n\t\tres = \"(\" + strings.Join(elems, \",\") + \")\"\n"}}},
+	{Name: "list-joined-skips-first-element", Rule: "R-LEAFTYPES", Edits: []Edit{
+		{File: "util.go", Old: "\t\tvar sb strings.Builder\n\t\tsb.WriteRune('(')\n\t\tfor idx, s := range v {\n\t\t\tif idx != 0 {\n\t\t\t\tsb.WriteRune(' ')\n\t\t\t}\n\t\t\tsb.WriteString(`\"` + s + `\"`)\n\t\t}\n\t\tsb.WriteRune(')')\n\t\tres = sb.String()\n", New: "\t\telems := make([]string, 0, len(v))\n\t\tfor k, s := range v {\n\t\t\tif k == 0 {\n\t\t\t\tcontinue\n\t\t\t}\n\t\t\telems = append(elems, `\"`+s+`\"`)\n\t\t}\n\t\tres = \"(\" + strings.Join(elems, \" \") + \")\"\n"}}},
 	{Name: "dump-quotes-with-strconv", Rule: "R-CODEC", Edits: []Edit{
 		{File: "util.go", Old: "		res = `\"` + v + `\"`", New: "		res = strconv.Quote(v)"}}},
 	{Name: "dump-list-elements-percent-q", Rule: "R-CODEC", Edits: []Edit{
